@@ -17,7 +17,7 @@ RULE = ("(a) exhaustive: every signature of length 0-3 over {QUBIT, REGISTER, IN
 ASSUMPTIONS = ["for Parameter-valued arguments only unambiguous cases are judged: a FLOAT parameter given to an INT parameter is "
                "not judged for acceptance (it may hold an integral value) but a rejection must still be a JaqalError"]
 TIERS = {"quick": {"shards": 8, "budget_s": 40}, "thorough": {"shards": 16, "budget_s": 240}}
-REQUIRE = {"calls-judged": 20000, "accepted": 2000, "rejected": 5000, "keyword-vs-positional": 5000, "idle-gates-checked": 20,
+REQUIRE = {"calls-on-a-definition-used-before": 20000, "definitions-used-before-variants-were-derived": 20, "calls-judged": 20000, "accepted": 2000, "rejected": 5000, "keyword-vs-positional": 5000, "idle-gates-checked": 20,
            "stretched-gates-checked": 15, "stretch-factors-sampled": 100}
 
 KINDS = ["QUBIT", "REGISTER", "INT", "FLOAT", "NONE"]
@@ -70,13 +70,24 @@ def try_call(gd, args=None, kwargs=None):
         return ("exc", type(ex).__name__, str(ex)[:150])
 
 
+_SHARED_DEFS = {}
+
+
 def judge_call(case, values):
     from jaqalpaq.core import GateDefinition, Parameter, ParamType
 
     sigk = case["signature"]
     vcs = case["args"]
-    params = [Parameter("p%d" % i, None if k == "NONE" else getattr(ParamType, k)) for i, k in enumerate(sigk)]
-    gd = GateDefinition("G", params)
+    if case.get("shared"):
+        # one definition object per signature for the whole run: what it accepted before must not matter now
+        key = tuple(sigk)
+        if key not in _SHARED_DEFS:
+            ps = [Parameter("p%d" % i, None if k == "NONE" else getattr(ParamType, k)) for i, k in enumerate(sigk)]
+            _SHARED_DEFS[key] = (ps, GateDefinition("G", ps))
+        params, gd = _SHARED_DEFS[key]
+    else:
+        params = [Parameter("p%d" % i, None if k == "NONE" else getattr(ParamType, k)) for i, k in enumerate(sigk)]
+        gd = GateDefinition("G", params)
     args = [values[v] for v in vcs]
     names = [p.name for p in params]
     fails = []
@@ -121,6 +132,39 @@ def judge_call(case, values):
     return fails, info
 
 
+def use_all(gates):
+    """Call every definition once positionally and once by keyword, and look at its qubits and (if any) its unitary:
+    whatever a definition remembers from being used must not leak into the variants derived from it afterwards."""
+    from jaqalpaq.core import Register, ParamType
+
+    reg = Register("use_r", 8)
+    n = 0
+    for name, g in gates.items():
+        args = []
+        qi = 0
+        for p in g.parameters:
+            if p.kind == ParamType.QUBIT:
+                args.append(reg[qi])
+                qi += 1
+            elif p.kind == ParamType.INT:
+                args.append(2)
+            else:
+                args.append(0.5)
+        try:
+            g(*args)
+            g(**{p.name: a for p, a in zip(g.parameters, args)})
+            list(g.used_qubits)
+            if getattr(g, "ideal_unitary", None) is not None:
+                g.ideal_unitary(*[a for p, a in zip(g.parameters, args) if p.kind != ParamType.QUBIT])
+            n += 1
+        except Exception:
+            pass
+    return n
+
+
+USED_FIRST = [0]
+
+
 def judge_idle(order_seed):
     """add_idle_gates on the native set (active gates in a shuffled order)."""
     import random
@@ -130,6 +174,8 @@ def judge_idle(order_seed):
     base = gateset.make(idle=False, logged=False)
     items = list(base.items())
     random.Random(order_seed).shuffle(items)
+    if order_seed % 2:
+        USED_FIRST[0] += use_all(base)
     out = add_idle_gates(dict(items))
     n = 0
     for name, g in base.items():
@@ -206,6 +252,8 @@ def judge_stretched(suffix, with_idle, order_seed, rng):
     base = {k: v for k, v in base.items() if k not in ("prepare_all", "measure_all")}
     items = list(base.items())
     random.Random(order_seed).shuffle(items)
+    if order_seed % 2:
+        USED_FIRST[0] += use_all(base)
     o = lib.outcome(stretched_gates, dict(items), suffix=suffix)
     if o[0] != "ok":
         return [("stretched_gates-raised:" + o[1], {"error": o[2], "suffix": suffix, "with_idle": with_idle})], 0, 0
@@ -267,10 +315,12 @@ def shard(ctx):
     values = make_values()
     rng = ctx.rng
     j = 0
+    sig_index = 0
     complete = True
     maxlen = 3
     for n in range(0, maxlen + 1):
         for sigk in itertools.product(KINDS, repeat=n):
+            sig_index += 1
             for arity in (n - 1, n, n + 1):
                 if arity < 0:
                     continue
@@ -279,14 +329,21 @@ def shard(ctx):
                     arglists = itertools.product(VALUE_CLASSES, repeat=arity)
                 else:
                     arglists = sampled_arglists(rng, sigk, arity, ctx.quick)
-                for vcs in arglists:
+                arglists = list(arglists)
+                # forwards on fresh definitions, then forwards and backwards on ONE definition object per signature
+                for vcs, shared in [(v, False) for v in arglists] + [(v, True) for v in arglists] + [(v, True) for v in reversed(arglists)]:
                     j += 1
-                    if not ctx.mine(j):
+                    if not shared and not ctx.mine(j):
                         continue
+                    if shared and not ctx.mine(sig_index):
+                        continue  # all calls on one shared definition happen in one process
                     if rec.expired():
                         complete = False
                         break
                     case = {"signature": list(sigk), "args": list(vcs)}
+                    if shared:
+                        case["shared"] = True
+                        rec.count("calls-on-a-definition-used-before")
                     fails, info = judge_call(case, values)
                     rec.case(case, nontrivial=arity >= 1)
                     rec.count("calls")
@@ -323,6 +380,7 @@ def shard(ctx):
                 rec.count("stretch-factors-sampled", nf)
                 for clause, detail in fails:
                     rec.violation(sig("C18", clause), detail, {"kind": "stretched", "suffix": suffix, "with_idle": with_idle, "order_seed": seed})
+    rec.counters["definitions-used-before-variants-were-derived"] = USED_FIRST[0]
     monitors.report_contracts(rec)
 
 
